@@ -92,7 +92,10 @@ fn run_inc<const R: usize>(h: &Ev, evs: &mut Vec<Value>) {
                 }
                 ("finalize", A::Dec(c)) => {
                     let t: [u8; 16] = get_bytes(&e, "tag").as_slice().try_into().expect("harness: tag must be 16 bytes");
-                    out_bool(c.finalize(&Tag(t)) == DecryptionResult::Match)
+                    out_bool(match c.finalize(&Tag(t)) {
+                        DecryptionResult::Match => true,
+                        DecryptionResult::MisMatch => false,
+                    })
                 }
                 (o, _) => Out::Bad(format!("harness: aead op {} not possible in this phase", o)),
             }
